@@ -57,7 +57,8 @@ Definition percentage (t : task) : Q :=
   if Qeq_bool (t_total t) 0 then qZ PCT_WHEN_NO_TOTAL
   else Qmin (qZ PCT_HI) (Qmax (qZ PCT_LO) (t_completed t / t_total t * qZ PCT_FACTOR)).
 
-(* Task.speed *)
+(* Task.speed; the number of samples skipped before the sum (next(iter_progress)) is regenerated, the
+   rest of the method's shape is checked by the translator (speed_facts) *)
 Definition speed (t : task) : option Q :=
   match t_start t with
   | None => None
@@ -67,7 +68,7 @@ Definition speed (t : task) : option Q :=
       | s0 :: rest =>
           let total_time := s_ts (last rest s0) - s_ts s0 in
           if Qeq_bool total_time 0 then None
-          else Some (sumQ (map s_delta rest) / total_time)
+          else Some (sumQ (map s_delta (skipn (Z.to_nat SPEED_SKIP) (s0 :: rest))) / total_time)
       end
   end.
 
@@ -630,3 +631,203 @@ Fixpoint count_acq (l : list ev) : nat :=
 Definition single_cs_b (l : list ev) : bool :=
   Nat.eqb (count_acq l) 1 && guarded l && clock_inside_b l.
 End SerFacts.
+
+(* ================================================================== Mix *)
+(* Event-granular interleaving of threads that each perform a list of advance / update / reset calls
+   on one task, over the finer event lists regenerated from the source (gen: advance_xevents,
+   update_xevents, reset_xevents).  Only task.completed is tracked here (the other fields of mixed
+   operations are covered at critical-section granularity by Ser); two ghosts: `wlog`, every write to
+   task.completed in execution order, and `hist`, the calls in lock-acquisition order. *)
+Module Mix.
+Open Scope Z_scope.
+
+Inductive mop : Type :=
+| MAdv (a : Z)
+| MUpd (tot comp adv : option Z)
+| MRst (comp : Z).
+Definition arg_adv (o : mop) : option Z :=
+  match o with MAdv a => Some a | MUpd _ _ adv => adv | MRst _ => None end.
+Definition arg_comp (o : mop) : option Z :=
+  match o with MAdv _ => None | MUpd _ c _ => c | MRst c => Some c end.
+Definition guard_ok (g : guard) (o : mop) : bool :=
+  match g with
+  | G_always => true
+  | G_total => match o with MUpd (Some _) _ _ => true | _ => false end
+  | G_completed => is_some (arg_comp o)
+  | G_advance => is_some (arg_adv o)
+  end.
+
+Inductive wr : Type := WSet (v : Z) | WAdd (a : Z).
+(* last explicitly set value plus the advances since, as a fold over the writes *)
+Definition eval_log (c0 : Z) (l : list wr) : Z :=
+  fold_left (fun c w => match w with WSet v => v | WAdd a => c + a end) l c0.
+
+(* what an event of a call writes to task.completed *)
+Definition writes_ev (o : mop) (e : xev) : list wr :=
+  match e with
+  | XAddC g => if guard_ok g o then match arg_adv o with Some a => [WAdd a] | None => [] end else []
+  | XSetC g => if guard_ok g o then match arg_comp o with Some c => [WSet c] | None => [] end else []
+  | _ => []
+  end.
+(* the property's reading of the three calls *)
+Definition spec_writes (o : mop) : list wr :=
+  match o with
+  | MAdv a => [WAdd a]
+  | MUpd _ comp adv =>
+      (match adv with Some a => [WAdd a] | None => [] end) ++ (match comp with Some c => [WSet c] | None => [] end)
+  | MRst c => [WSet c]
+  end.
+
+Record shared := mkShared { completed : Z; lock : option nat; wlog : list wr; hist : list mop }.
+Record thread := mkThread {
+  pc : list xev; cur : mop; todo : list mop; r_c : Z;
+  g_phase : nat;      (* ghost: 0 before the lock is taken, 1 inside, 2 after release *)
+  g_valid : bool      (* ghost: r_c was read in this critical section and not yet consumed *)
+}.
+
+(* static discipline: one critical section holding every shared access; `+=` writes a value read in it *)
+Fixpoint wfx_from (phase : nat) (valid : bool) (l : list xev) : bool :=
+  match l with
+  | [] => Nat.eqb phase 2
+  | e :: r =>
+      match e with
+      | XClock | XLocal => wfx_from phase valid r
+      | XAcq => Nat.eqb phase 0 && wfx_from 1 false r
+      | XRel => Nat.eqb phase 1 && wfx_from 2 false r
+      | XRdC => Nat.eqb phase 1 && wfx_from 1 true r
+      | XAddC _ => Nat.eqb phase 1 && valid && wfx_from 1 false r
+      | XSetC _ => Nat.eqb phase 1 && wfx_from 1 false r
+      | XOther => Nat.eqb phase 1 && wfx_from 1 valid r
+      end
+  end.
+Definition wfx_b (l : list xev) : bool := wfx_from 0 false l.
+
+Section Machine.
+Variables evA evU evR : list xev.      (* the event lists of advance / update / reset *)
+Definition prog_of (o : mop) : list xev :=
+  match o with MAdv _ => evA | MUpd _ _ _ => evU | MRst _ => evR end.
+Definition writes_of (o : mop) : list wr := flat_map (writes_ev o) (prog_of o).
+
+Definition exec (i : nat) (s : shared) (th : thread) (e : xev) : option (shared * thread) :=
+  let th' := fun c ph v => mkThread (tl (pc th)) (cur th) (todo th) c ph v in
+  match e with
+  | XClock | XLocal | XOther => Some (s, th' (r_c th) (g_phase th) (g_valid th))
+  | XAcq =>
+      match lock s with
+      | None => Some (mkShared (completed s) (Some i) (wlog s) (hist s ++ [cur th]), th' (r_c th) 1%nat false)
+      | Some _ => None
+      end
+  | XRel => Some (mkShared (completed s) None (wlog s) (hist s), th' (r_c th) 2%nat false)
+  | XRdC => Some (s, th' (completed s) (g_phase th) true)
+  | XAddC g =>
+      match (if guard_ok g (cur th) then arg_adv (cur th) else None) with
+      | Some a => Some (mkShared (r_c th + a) (lock s) (wlog s ++ [WAdd a]) (hist s), th' (r_c th) (g_phase th) false)
+      | None => Some (s, th' (r_c th) (g_phase th) false)
+      end
+  | XSetC g =>
+      match (if guard_ok g (cur th) then arg_comp (cur th) else None) with
+      | Some c => Some (mkShared c (lock s) (wlog s ++ [WSet c]) (hist s), th' (r_c th) (g_phase th) false)
+      | None => Some (s, th' (r_c th) (g_phase th) false)
+      end
+  end.
+
+Definition step1 (i : nat) (s : shared) (th : thread) : shared * thread :=
+  match pc th with
+  | e :: _ => match exec i s th e with Some r => r | None => (s, th) end
+  | [] =>
+      match todo th with
+      | [] => (s, th)
+      | o :: rest =>
+          let th0 := mkThread (prog_of o) o rest 0 0%nat false in
+          match prog_of o with
+          | [] => (s, th0)
+          | e :: _ => match exec i s th0 e with Some r => r | None => (s, th0) end
+          end
+      end
+  end.
+
+Fixpoint set_nth {A} (n : nat) (x : A) (l : list A) : list A :=
+  match l, n with
+  | [], _ => []
+  | _ :: r, O => x :: r
+  | y :: r, S n' => y :: set_nth n' x r
+  end.
+Definition state : Type := (shared * list thread)%type.
+Definition sstep (st : state) (i : nat) : state :=
+  let '(s, ths) := st in
+  match nth_error ths i with
+  | None => st
+  | Some th => let '(s', th') := step1 i s th in (s', set_nth i th' ths)
+  end.
+Definition srun (st : state) (sched : list nat) : state := fold_left sstep sched st.
+End Machine.
+
+Definition init_state (c0 : Z) (progs : list (list mop)) : state :=
+  (mkShared c0 None [] [], map (fun p => mkThread [] (MRst 0) p 0 2%nat false) progs).
+End Mix.
+
+(* replay of an observed trace through Mix: visible are lock acquire (1) / release (2) and the writes
+   to task.completed (4); the named thread is moved through its invisible events up to the next
+   visible one, whose kind must be the recorded one *)
+Module MixReplay.
+Import Mix.
+Open Scope Z_scope.
+Definition vis (o : mop) (e : xev) : option Z :=
+  match e with
+  | XAcq => Some 1
+  | XRel => Some 2
+  | XAddC g => if guard_ok g o && is_some (arg_adv o) then Some 4 else None
+  | XSetC g => if guard_ok g o && is_some (arg_comp o) then Some 4 else None
+  | _ => None
+  end.
+Section R.
+Variables evA evU evR : list xev.
+Definition next_ev (th : thread) : option (mop * xev) :=
+  match pc th with
+  | e :: _ => Some (cur th, e)
+  | [] => match todo th with
+          | [] => None
+          | o :: _ => match prog_of evA evU evR o with [] => None | e :: _ => Some (o, e) end
+          end
+  end.
+Fixpoint replay_one (fuel : nat) (i : nat) (kind : Z) (st : state) : option state :=
+  match fuel with
+  | O => None
+  | S fuel' =>
+      match nth_error (snd st) i with
+      | None => None
+      | Some th =>
+          match next_ev th with
+          | None => None
+          | Some (o, e) =>
+              let st' := sstep evA evU evR st i in
+              match vis o e with
+              | Some k => if k =? kind then Some st' else None
+              | None => replay_one fuel' i kind st'
+              end
+          end
+      end
+  end.
+Fixpoint replay (trace : list (nat * Z)) (st : state) : option state :=
+  match trace with
+  | [] => Some st
+  | (i, k) :: r =>
+      match replay_one 80 i k st with
+      | None => None
+      | Some st' => replay r st'
+      end
+  end.
+End R.
+(* the values task.completed takes, write after write *)
+Fixpoint scan_log (c : Z) (l : list wr) : list Z :=
+  match l with
+  | [] => []
+  | w :: r => let c' := match w with WSet v => v | WAdd a => c + a end in c' :: scan_log c' r
+  end.
+Definition thread_idle (th : thread) : bool :=
+  match pc th, todo th with
+  | [], [] => true
+  | l, [] => forallb (fun e => match e with XClock | XLocal | XOther => true | _ => false end) l
+  | _, _ => false
+  end.
+End MixReplay.
